@@ -66,18 +66,31 @@ def produced_list(oracle_doc, files):
     """Oracle output -> list of produced reports in RunnerTrace's form (definitions of named files only,
     plus the parse stage)."""
     texts = file_texts(files)
-    named_paths = set(f["path"] for f in oracle_doc["files"] if f["named"])
+    # which files are user-specified is decided by what was named on the command line (Ref), not by what the library believes
+    ref_named = set(os.path.normpath(f["path"]) for f in files if f.get("named"))
+    fid_path = {f["fid"]: os.path.normpath(f["path"]) for f in oracle_doc["files"]}
+    named_paths = set(f["path"] for f in oracle_doc["files"] if os.path.normpath(f["path"]) in ref_named) if ref_named else \
+        set(f["path"] for f in oracle_doc["files"] if f["named"])
     out = []
     for r in oracle_doc["parse"]:
         k, sk = keys(r, texts)
         out.append({"stage": "parse", "id": r["id"], "level": r["cat"], "loc": loc_class(r, named_paths), "key": k, "skey": sk})
     for d in oracle_doc["defs"]:
-        if not d["named"] or "panic" in d:
+        is_named = (fid_path.get(d.get("fid")) in ref_named) if (ref_named and "fid" in d) else d["named"]
+        if not is_named or "panic" in d:
             continue
         for r in d["cfg_reports"] + d["pass_reports"]:
             k, sk = keys(r, texts)
             out.append({"stage": d["name"], "id": r["id"], "level": r["cat"], "loc": loc_class(r, named_paths), "key": k, "skey": sk})
     return out
+
+
+def named_defs(oracle_doc, files):
+    """names of the definitions that live in files named on the command line (Ref's notion, see produced_list)"""
+    ref_named = set(os.path.normpath(f["path"]) for f in files if f.get("named"))
+    fid_path = {f["fid"]: os.path.normpath(f["path"]) for f in oracle_doc["files"]}
+    return [d["name"] for d in oracle_doc["defs"]
+            if ((fid_path.get(d.get("fid")) in ref_named) if (ref_named and "fid" in d) else d["named"])]
 
 
 def diag_key(ev):
